@@ -27,9 +27,10 @@ import (
 
 type Ev struct {
 	JSON   string
-	Stream string // value of the "stream" field in JSON ("" = not_set)
-	Bad    bool   // expected to be refused by In (empty / undecodable / oversize / PassEvent false)
-	Refuse bool   // PassEvent returns false for this event
+	Stream string        // value of the "stream" field in JSON ("" = not_set)
+	Bad    bool          // expected to be refused by In (empty / undecodable / oversize / PassEvent false)
+	Refuse bool          // PassEvent returns false for this event
+	Delay  time.Duration // the reader waits this long (virtual time) before handing the event to In
 }
 
 type Scn struct {
@@ -74,19 +75,19 @@ type evState struct {
 }
 
 type Obs struct {
-	sc        *Scn
-	evs       [][]*evState // per source, read order
-	byPtr     map[*pipeline.Event]*evState
-	reading   map[int]*evState // thread id -> event being read by In
-	out       int              // events currently handed out by the pool (monitor)
-	maxOut    int
-	ackedPtr  map[*pipeline.Event]bool // child events acked
-	sentPtr   map[*pipeline.Event]bool // events handed to the main output (Out)
-	commitSeq map[string][]int64       // per (source,stream): offsets in commit order
-	mainCalls int
-	dqCalls   int
-	errCalls  int
-	findings  []vexplore.Finding
+	sc          *Scn
+	evs         [][]*evState // per source, read order
+	byPtr       map[*pipeline.Event]*evState
+	reading     map[int]*evState // thread id -> event being read by In
+	out         int              // events currently handed out by the pool (monitor)
+	maxOut      int
+	ackedPtr    map[*pipeline.Event]bool // child events acked
+	sentPtr     map[*pipeline.Event]bool // events handed to the main output (Out)
+	commitSeq   map[string][]int64       // per (source,stream): offsets in commit order
+	mainCalls   int
+	dqCalls     int
+	errCalls    int
+	findings    []vexplore.Finding
 	readersDone int
 	accepted    int
 	ended       int
@@ -112,7 +113,9 @@ func (o *Obs) logf(format string, a ...any) {
 
 func key(src int, stream string) string { return fmt.Sprintf("%d/%s", src, stream) }
 
-func (e *evState) String() string { return fmt.Sprintf("s%d#%d(off %d,%s)", e.src, e.idx, e.off, e.stream) }
+func (e *evState) String() string {
+	return fmt.Sprintf("s%d#%d(off %d,%s)", e.src, e.idx, e.off, e.stream)
+}
 
 // finished = acknowledged by an output, given up after exhausted retries without dead queue,
 // or deliberately dropped (returned to the pool without a commit), or refused at the entrance.
@@ -195,7 +198,7 @@ func (m monitor) BackDone(e *pipeline.Event) {
 type input struct{ o *Obs }
 
 func (in *input) Start(pipeline.AnyConfig, *pipeline.InputPluginParams) {}
-func (in *input) Stop()                                               {}
+func (in *input) Stop()                                                 {}
 func (in *input) PassEvent(e *pipeline.Event) bool {
 	st := in.o.reading[vsched.ThreadID()]
 	return st == nil || !st.spec.Refuse
@@ -367,7 +370,7 @@ func parentKind() pipeline.Kind { e := &pipeline.Event{}; e.SetChildParentKind()
 type collapseAction struct{}
 
 func (collapseAction) Start(pipeline.AnyConfig, *pipeline.ActionPluginParams) {}
-func (collapseAction) Stop()                                                {}
+func (collapseAction) Stop()                                                  {}
 func (collapseAction) Do(e *pipeline.Event) pipeline.ActionResult {
 	if e.IsTimeoutKind() {
 		return pipeline.ActionDiscard
@@ -382,7 +385,7 @@ func (collapseAction) Do(e *pipeline.Event) pipeline.ActionResult {
 type spawnWatch struct{ o *Obs }
 
 func (spawnWatch) Start(pipeline.AnyConfig, *pipeline.ActionPluginParams) {}
-func (spawnWatch) Stop()                                                {}
+func (spawnWatch) Stop()                                                  {}
 func (w spawnWatch) Do(e *pipeline.Event) pipeline.ActionResult {
 	if e.IsTimeoutKind() {
 		return pipeline.ActionPass
@@ -512,6 +515,9 @@ func Body(sc *Scn) {
 		src := s
 		vsched.GoNamed(fmt.Sprintf("reader%d", src), func() {
 			for _, st := range list {
+				if st.spec.Delay > 0 {
+					vsched.Sleep(st.spec.Delay)
+				}
 				o.reading[vsched.ThreadID()] = st
 				seq := p.In(pipeline.SourceID(src), fmt.Sprintf("file%d", src), pipeline.NewOffsets(st.off, nil), []byte(st.spec.JSON), false, nil)
 				delete(o.reading, vsched.ThreadID())
@@ -575,6 +581,10 @@ func Check(sc *Scn, x *vsched.Exec) []vexplore.Finding {
 					pend = append(pend, st.String())
 				}
 			}
+		}
+		if len(pend) > 0 {
+			fs = append(fs, vexplore.Finding{Clause: "unaccounted", Features: map[string]string{"at": "horizon"},
+				Detail: fmt.Sprintf("accepted events %v have neither been committed nor dropped when the pipeline went idle (virtual-time horizon %v, every send answered)", pend, sc.Horizon)})
 		}
 		fs = append(fs, vexplore.Finding{Clause: "wedged", Features: map[string]string{"pool": string(sc.Pool)},
 			Detail: fmt.Sprintf("virtual-time horizon %v passed: readers done %d/%d, accepted %d, ended %d, pending %v; every send is answered. Threads: %s",
